@@ -474,6 +474,48 @@ def parRun (lockedDecode : Bool) (p : Par) : List Nat → Par
     | some p' => parRun lockedDecode p' is
     | none => parRun lockedDecode p is
 
+/-! ## Registration: one table per API (processor.go:59-71, 192-315, 321-350)
+
+`RegisterHandler(f)` enters `f` into `p.handlers` under the name of its message type
+(`createServiceHandler`: the type name without the package); `ProcessClientRequest` and
+`IsStreaming` — the websocket path — dispatch on that table only.  `RegisterRESTHandler(f, …)`
+builds a closure over `f` itself and hands it to the HTTP multiplexer under the resource path; it
+does not touch `p.handlers`.  A service may register one message type for both APIs with two
+different functions.  `sharedTable = true` describes a registration in which the REST side enters
+its function into `p.handlers` as well (for the negative result). -/
+
+inductive Reg (H : Type) where
+  | ws (name : String) (h : H)      -- `RegisterHandler`
+  | rest (name : String) (h : H)    -- `RegisterRESTHandler`
+  deriving Repr
+
+structure Table (H : Type) where
+  /-- `p.handlers` -/
+  handlers : String → Option H
+  /-- the multiplexer's patterns `/v<n>/<namespace>/<name>` (net/http refuses a second registration
+  of a pattern by panicking; the model keeps the later one) -/
+  routes : String → Option H
+
+def Table.empty {H : Type} : Table H := ⟨fun _ => none, fun _ => none⟩
+
+def Table.add {H : Type} (sharedTable : Bool) (t : Table H) : Reg H → Table H
+  | .ws n h => { t with handlers := fun m => if m = n then some h else t.handlers m }
+  | .rest n h =>
+    { handlers := if sharedTable then (fun m => if m = n then some h else t.handlers m) else t.handlers
+      routes := fun m => if m = n then some h else t.routes m }
+
+/-- the tables after a service's constructor has run -/
+def Table.build {H : Type} (sharedTable : Bool) (regs : List (Reg H)) : Table H :=
+  regs.foldl (Table.add sharedTable) Table.empty
+
+def Reg.wsFor {H : Type} (name : String) : Reg H → Option H
+  | .ws n h => if name = n then some h else none
+  | .rest _ _ => none
+
+def Reg.restFor {H : Type} (name : String) : Reg H → Option H
+  | .ws _ _ => none
+  | .rest n h => if name = n then some h else none
+
 /-! ## The concrete service of the correspondence run (harness/cmd/onetharness/c14svc.go) -/
 
 /-- request fields `A int64`, `S string`, `B []byte` -/
@@ -583,12 +625,25 @@ def decodeMsgAux : Nat → List Nat → Nat → Msg → Except DecErr Msg
 
 def decodeMsg (buf : Bytes) : Except DecErr Msg := decodeMsgAux (buf.length + 1) buf 0 {}
 
-/-- websocket paths of the service -/
-def wsTag (path : String) : Option Bytes :=
-  if path = "C14Echo" then some [47, 69, 99, 104, 111]        -- "/Echo"
-  else if path = "C14Swap" then some [47, 83, 119, 97, 112]   -- "/Swap"
-  else if path = "C14Key" then some [47, 75, 101, 121]        -- "/Key"
-  else none
+/-- what `newC14Service` registers, in its order; a handler is named by its tag ("/" ++ tag as
+bytes): the function registered is `c14Transform(tag, …)`.  `C14Both` is registered for both APIs
+with two different functions.  (`C14Keep` and `C14Who` have models of their own: `keepWs`, `Par`.) -/
+def concreteRegs : List (Reg Bytes) :=
+  [.ws "C14Echo" [47, 69, 99, 104, 111],                       -- "/Echo"
+   .ws "C14Swap" [47, 83, 119, 97, 112],                       -- "/Swap"
+   .ws "C14Key" [47, 75, 101, 121],                            -- "/Key"
+   .ws "C14Both" [47, 66, 111, 116, 104, 87, 115],             -- "/BothWs"
+   .rest "C14Post" [47, 80, 111, 115, 116],                    -- "/Post"
+   .rest "C14Put" [47, 80, 117, 116],                          -- "/Put"
+   .rest "C14Int" [47, 73, 110, 116],                          -- "/Int"
+   .rest "C14Bytes" [47, 66, 121, 116, 101, 115],              -- "/Bytes"
+   .rest "C14Empty" [47, 69, 109, 112, 116, 121],              -- "/Empty"
+   .rest "C14Both" [47, 66, 111, 116, 104, 82, 101, 115, 116]] -- "/BothRest"
+
+def concreteTable : Table Bytes := Table.build false concreteRegs
+
+/-- websocket paths of the service: what `p.handlers` holds after the registrations -/
+def wsTag (path : String) : Option Bytes := concreteTable.handlers path
 
 /-- the request of path `C14Key` is `{A int64; P kyber.Point}`: `P` is a field of interface type,
 present (a marshalled point: type id and 32 bytes, of which the handler echoes the 32 bytes) or
@@ -654,17 +709,19 @@ def unmarshal (o : Msg) : Body → Msg × Bool
   | .syntaxErr => (o, false)
   | .obj items => items.foldl applyItem (o, true)
 
-/-- the five REST handlers of the service, in registration order:
-0 C14Post (POST), 1 C14Put (PUT), 2 C14Int (GET, int), 3 C14Bytes (GET, slice), 4 C14Empty (GET) -/
+/-- the six REST handlers of the service, in registration order:
+0 C14Post (POST), 1 C14Put (PUT), 2 C14Int (GET, int), 3 C14Bytes (GET, slice), 4 C14Empty (GET),
+5 C14Both (POST; the same message type has another function on the websocket API) -/
 def restTag : Nat → Bytes
   | 0 => [47, 80, 111, 115, 116]               -- "/Post"
   | 1 => [47, 80, 117, 116]                    -- "/Put"
   | 2 => [47, 73, 110, 116]                    -- "/Int"
   | 3 => [47, 66, 121, 116, 101, 115]          -- "/Bytes"
+  | 5 => [47, 66, 111, 116, 104, 82, 101, 115, 116]   -- "/BothRest"
   | _ => [47, 69, 109, 112, 116, 121]          -- "/Empty"
 
 def concreteRest (k : Nat) : RestH Nat Msg Body Reply where
-  method := match k with | 0 => .POST | 1 => .PUT | _ => .GET
+  method := match k with | 0 => .POST | 1 => .PUT | 5 => .POST | _ => .GET
   kind := match k with | 2 => .int | 3 => .slice | _ => .empty
   zero := {}
   unmarshal := unmarshal
@@ -676,6 +733,7 @@ def concreteRest (k : Nat) : RestH Nat Msg Body Reply where
       | 3 => transform (restTag k) { b := o.b }
       | 0 => transform (restTag k) o
       | 1 => transform (restTag k) o
+      | 5 => transform (restTag k) o
       | _ => transform (restTag k) {})
 
 def concreteCfg (al : Alloc) : Cfg Nat Msg Reply Msg Body where
@@ -744,7 +802,7 @@ def parseMethod (s : String) : Method :=
 
 def resourceId (s : String) : Option Nat :=
   if s = "C14Post" then some 0 else if s = "C14Put" then some 1 else if s = "C14Int" then some 2
-  else if s = "C14Bytes" then some 3 else if s = "C14Empty" then some 4 else none
+  else if s = "C14Bytes" then some 3 else if s = "C14Empty" then some 4 else if s = "C14Both" then some 5 else none
 
 /-- the websocket reply of the concrete service is compared in decoded form: recompute the reply
 value that `encode` stands for -/
